@@ -184,10 +184,10 @@ CHECKS = {
         parts=[
             dict(pkg="seat", run="^TestC16SeatManager$",
                  quick=dict(shards=2, checks=400, timeout=240),
-                 thorough=dict(shards=8, checks=2000, timeout=1800)),
+                 thorough=dict(shards=8, checks=800, timeout=1800)),
             dict(pkg="seat", run="^TestC16SeatManager$",
                  quick=dict(shards=1, checks=300, timeout=240, gomaxprocs=2),
-                 thorough=dict(shards=4, checks=1000, timeout=1800, gomaxprocs=2)),
+                 thorough=dict(shards=4, checks=400, timeout=1800, gomaxprocs=2)),
             dict(pkg="table", run="^TestC16Membership$",
                  quick=dict(shards=2, checks=250, timeout=240),
                  thorough=dict(shards=8, checks=3000, timeout=1800)),
